@@ -44,6 +44,8 @@ def run(prog, res):
   _default_range(prog, res)
   _pwl_init_sizes(prog, res)
   res.floor('I4', 1)
+  _equal_slopes_sum(prog, res)
+  res.floor('I5', 1)
   res.floor('K5', 20)
   res.floor('I3', 2)
   res.floor('W1', 8)
@@ -433,3 +435,71 @@ def _pwl_init_sizes(prog, res):
             'keypoints for a kernel of %s rows (of 5 input keypoints): '
             'tf.constant(keypoints, shape=[rows, 1]) raises in build()' % (
                 bool(bad[0]), bad[1], bad[2]) if bad else '')
+
+
+def _equal_slopes_sum(prog, res):
+  """I5: the equal_slopes heights are lengths * (range / D).  They add up to
+  the initialisation range - so that the last keypoint output is the upper
+  initialisation bound - iff D is the sum of the SAME lengths: either
+  tf.reduce_sum(lengths) or, by telescoping, K[-1] - K[0] of the very key-point
+  sequence K the lengths are differences of.  Any other span (e.g. of the
+  untruncated keypoint list of a cyclic calibrator) leaves the initial curve
+  short of the bound."""
+  lin = prog.function('pwl_calibration_lib.linear_initializer')
+  res.analysed(lin)
+  defs = {}
+  for st in ast.walk(lin.node):
+    if isinstance(st, ast.Assign) and isinstance(st.targets[0], ast.Name):
+      defs.setdefault(st.targets[0].id, []).append(st.value)
+  heights = [v for v in defs.get('heights_tensor', [])
+             if isinstance(v, ast.BinOp) and isinstance(v.op, ast.Mult)
+             and 'lengths_tensor' in {dotted(x) for x in ast.walk(v)}]
+  if not heights:
+    raise AnalysisError('linear_initializer: equal_slopes heights vanished')
+  h = heights[0]
+  scale = h.right if dotted(h.left) == 'lengths_tensor' else h.left
+  if isinstance(scale, ast.Name) and len(defs.get(scale.id, [])) == 1:
+    scale = defs[scale.id][0]
+  if not (isinstance(scale, ast.BinOp) and isinstance(scale.op, ast.Div)):
+    raise AnalysisError('linear_initializer: heights are not lengths * '
+                        '(range / D): %s' % norm_text(h)[:60])
+  D = scale.right
+
+  def resolve(e):
+    if isinstance(e, ast.Name) and len(defs.get(e.id, [])) == 1:
+      return resolve(defs[e.id][0])
+    return e
+  D = resolve(D)
+  while isinstance(D, ast.Call) and dotted(D.func) in ('float', 'int') and \
+      len(D.args) == 1:
+    D = D.args[0]
+  lengths_def = defs.get('lengths_tensor', [None])[0]
+  # K: the sequence the lengths are first differences of
+  K = None
+  if isinstance(lengths_def, ast.BinOp) and isinstance(lengths_def.op, ast.Sub) \
+      and isinstance(lengths_def.left, ast.Subscript) and isinstance(
+          lengths_def.right, ast.Subscript):
+    K = dotted(lengths_def.left.value)
+  ok = False
+  why = norm_text(D)[:50]
+  if isinstance(D, ast.Call) and (prog.ext_name(lin.module, D.func) or ''
+                                  ).endswith('reduce_sum') and D.args and \
+      dotted(D.args[0]) == 'lengths_tensor':
+    ok = True
+  elif isinstance(D, ast.BinOp) and isinstance(D.op, ast.Sub) and isinstance(
+      D.left, ast.Subscript) and isinstance(D.right, ast.Subscript):
+    a, b = D.left, D.right
+    if dotted(a.value) == dotted(b.value) == K and K is not None and \
+        const_value(a.slice, None) == -1 and const_value(b.slice, None) == 0:
+      ok = True
+    else:
+      why += ' (a span of `%s`, but the lengths are differences of `%s`)' % (
+          dotted(a.value), K)
+  res.check(ok, 'I5', 'pwl_calibration_lib.linear_initializer|slopes-sum',
+            lin.loc(h),
+            'the equal_slopes heights are lengths * range / sum(lengths): '
+            'they add up to the initialisation range',
+            'the equal_slopes heights are lengths * range / `%s`, which is '
+            'not the sum of those lengths: the initial keypoint outputs stop '
+            'short of (or overshoot) the upper initialisation bound, e.g. for '
+            'a cyclic calibrator whose last keypoint has no kernel row' % why)
